@@ -407,6 +407,22 @@ pub fn for_each_tree(sc: &TreeScope, st: &mut Striper, visit: &mut dyn FnMut(&Te
         visit(&t);
       }
     }
+    // a cache above a replacement over a multi-piece rope (replay slices rope() across pieces)
+    let rs1 = ReplScope {
+      names2: false,
+      contents1: &["", "X", "\n"],
+      contents2: &[],
+      names1: false,
+      enforce1: false,
+      max: 1,
+      over: 1,
+      text: &text,
+    };
+    for_each_replset(&rs1, &mut |set| {
+      if st.mine() {
+        visit(&Term::cached(Term::replace(c.clone(), set)));
+      }
+    });
   }
   // Concat[Replace(leaf, single), leaf] both orders; Cached(Replace); Replace(Cached)
   for l in &sc.small_leaves {
